@@ -10,6 +10,7 @@ import EsbuildModel.Impl.Split
 import EsbuildModel.Impl.Determinism
 import EsbuildModel.Impl.Shake
 import EsbuildModel.Impl.TsEnum
+import EsbuildModel.Impl.Rename
 
 open EsbuildModel
 
@@ -27,6 +28,7 @@ def dispatch (kernel : String) (args : List String) : String :=
   | "det" => Det.driver args
   | "shake" => Shake.driver args
   | "tsenum" => TsEnum.driver args
+  | "rename" => Rename.driver args
   | _ => "bad-kernel"
 
 partial def loop (hin hout : IO.FS.Stream) : IO Unit := do
